@@ -300,6 +300,13 @@ AddRecursion(mi, form) ==
                      f == [name |-> "f" \o ToString(Len(ms1[mi].fields) + 1), kind |-> "string", ref |-> "", card |-> "single",
                            key |-> "", oneof |-> w.idx, anns |-> <<>>]
                  IN msgs' = [ms1 EXCEPT ![mi] = [w.m EXCEPT !.fields = Append(@, f)]]
+         [] form = "nestclash" ->     \* a NESTED message, used by a field of its parent, with two fields of one JSON name (foo_bar / fooBar)
+              /\ Len(msgs) < MaxMsgs
+              /\ LET t == Len(msgs) + 1
+                     a == [name |-> "foo_bar", kind |-> "string", ref |-> "", card |-> "single", key |-> "", oneof |-> 0, anns |-> <<>>]
+                     b == [name |-> "fooBar", kind |-> "int32", ref |-> "", card |-> "single", key |-> "", oneof |-> 0, anns |-> <<>>]
+                 IN msgs' = PutField(mi, "message", MsgName(t), "single", "string", "none", "none")
+                            \o <<[NewMsg(t, mi, "none") EXCEPT !.fields = <<a, b>>]>>
          [] form = "flatoneof" ->     \* a flattened child whose members sit in an exposed oneof: the oneof's member paths are
                                       \* relative to the child, while the parent has fields of other kinds at the same numbers
               /\ Len(msgs) < MaxMsgs
@@ -467,7 +474,8 @@ FlatReach(S, target, n) ==
 FlatCycle(a) == FlatReach({ b \in 1..Len(msgs) : FlatEdge(a, b) }, a, Len(msgs))
 NameClash(a) ==
     \/ /\ \E k \in 1..Len(msgs[a].fields) : msgs[a].fields[k].name = "fooBar"
-       /\ \E k \in 1..Len(msgs[a].oneofs) : msgs[a].oneofs[k].name = "foo_bar" /\ msgs[a].oneofs[k].opt = "expose"
+       /\ \/ \E k \in 1..Len(msgs[a].oneofs) : msgs[a].oneofs[k].name = "foo_bar" /\ msgs[a].oneofs[k].opt = "expose"
+          \/ \E k \in 1..Len(msgs[a].fields) : msgs[a].fields[k].name = "foo_bar"      \* both have the JSON name fooBar
     \/ /\ ~IsWrapper(msgs[a])            \* a oneof wrapper's options are not flattened
        /\ \E k \in 1..Len(msgs[a].fields) : msgs[a].fields[k].name = "clash" /\ ~IsFlatten(msgs[a].fields[k])
        /\ \E b \in 1..Len(msgs) : FlatEdge(a, b) /\ \E k \in 1..Len(msgs[b].fields) : msgs[b].fields[k].name = "clash"
